@@ -54,22 +54,36 @@ const (
 	oErr
 	oSlowOk
 	oTimeout
+	oHang   // script only: no answer until the CALLER's context is done (it expires 2 ms later); = OTimeout + context expiry
+	oHangOk // script only: accepted, but answered only after the caller's context was done; = OSlowOk + context expiry
+	oCtx    // log only: the caller's context was already done, the call returned its error at once
 )
 
-var outcomeCoq = []string{"OOk", "OErr", "OSlowOk", "OTimeout"}
+// scripts render oHang/oHangOk as the outcome the call is logged with
+var outcomeCoq = []string{"OOk", "OErr", "OSlowOk", "OTimeout", "OTimeout", "OSlowOk", "OCtx"}
 
-func accepted(o int) bool { return o == oOk || o == oSlowOk }
+func accepted(o int) bool { return o == oOk || o == oSlowOk || o == oHangOk }
 
 type shardIn struct {
 	Open []bool  `json:"open"` // k-th visit of the shard finds the circuit open
 	Reps [][]int `json:"reps"` // per replica: outcome of its n-th call
 }
 
+// the caller's request context: it becomes done when the AfterVisits-th shard visit ends (0 = it is
+// already done on entry).  mode "cancel": cancelled at exactly that point; mode "deadline": the
+// context carries a real 50 ms deadline that falls into the 100 ms back-off following that visit
+// (the generator guarantees that the second failed attempt ends there).
+type ctxScript struct {
+	Mode        string `json:"mode"`
+	AfterVisits int    `json:"after_visits"`
+}
+
 type script struct {
-	Gen     string    `json:"gen"`
-	Cold    []shardIn `json:"cold"`
-	Hot     []shardIn `json:"hot"`
-	Shuffle int64     `json:"shuffle_seed"`
+	Gen     string     `json:"gen"`
+	Cold    []shardIn  `json:"cold"`
+	Hot     []shardIn  `json:"hot"`
+	Shuffle int64      `json:"shuffle_seed"`
+	Ctx     *ctxScript `json:"ctx,omitempty"`
 }
 
 type call struct {
@@ -91,6 +105,8 @@ type result struct {
 	Log   []visit  `json:"log"`
 	Viol  []string `json:"viol,omitempty"` // directly observed violations: "fingerprint|what"
 	Tries int      `json:"tries"`
+	// number of completed shard visits when the caller's context became done (nil: it never did)
+	CancelAt *int `json:"cancel_at,omitempty"`
 }
 
 // ---------------------------------------------------------------- generators
@@ -177,7 +193,59 @@ func genRandom(r *rng.R, tries int) script {
 	} else {
 		sc.Cold = []shardIn{}
 	}
+	// the caller's request context expires somewhere in 15% of the scripts
+	if r.Chance(15, 100) {
+		sc.Gen += "+ctx"
+		if r.Chance(3, 5) {
+			sc.Ctx = &ctxScript{Mode: "cancel", AfterVisits: r.Intn(8)}
+			if r.Chance(1, 3) {
+				sc.Ctx.AfterVisits = r.Intn(3)
+			}
+		} else {
+			// a call that hangs until the caller's deadline (answering ok just after it, or never)
+			t := sc.Hot
+			if len(sc.Cold) > 0 && r.Bool() {
+				t = sc.Cold
+			}
+			sh := t[r.Intn(len(t))]
+			o := oHang
+			if r.Chance(1, 3) {
+				o = oHangOk
+			}
+			sh.Reps[r.Intn(len(sh.Reps))][r.Intn(2)] = o
+		}
+	}
 	return sc
+}
+
+// the real 50 ms deadline of the request falls into the 100 ms back-off after the second failed
+// attempt: the first tier tried has a replica that fails its first two calls in every shard, no
+// call waits for a timeout, so two attempts (2 x #shards visits) fail within microseconds
+func genBackoff(r *rng.R) script {
+	sc := script{Gen: "ctx-deadline-in-backoff", Shuffle: int64(r.U64() >> 1), Cold: []shardIn{}}
+	sc.Hot = genTier(r, r.Range(1, 3), r.Range(1, 3), 3, 40, 10, 0)
+	first := sc.Hot
+	if r.Bool() {
+		sc.Cold = genTier(r, r.Range(1, 3), r.Range(1, 3), 3, 40, 10, 0)
+		first = sc.Cold
+	}
+	for s := range first {
+		first[s].Reps[0][0], first[s].Reps[0][1] = oErr, oErr
+	}
+	sc.Ctx = &ctxScript{Mode: "deadline", AfterVisits: 2 * len(first)}
+	return sc
+}
+
+// every {ok,err} script of length n x every expiry point of the request context
+func genExhaustiveCtx(name string, coldR, hotR []int, n, maxV int, r *rng.R) []script {
+	var out []script
+	for v := 0; v <= maxV; v++ {
+		for _, sc := range genExhaustive(name, coldR, hotR, n, false, r) {
+			sc.Ctx = &ctxScript{Mode: "cancel", AfterVisits: v}
+			out = append(out, sc)
+		}
+	}
+	return out
 }
 
 // all scripts over {ok, err} of length n for a topology given as replica counts per shard
@@ -242,12 +310,23 @@ func genScripts(seed uint64, tier string, tries int) []script {
 	out = append(out, genExhaustive("exh-hot1x2", nil, []int{2}, n, false, r)...)
 	out = append(out, genExhaustive("exh-hot2x1", nil, []int{1, 1}, n, false, r)...)
 	out = append(out, genExhaustive("exh-cold1x1-hot1x1", []int{1}, []int{1}, n, false, r)...)
-	nrand := 4000
+	out = append(out, genExhaustiveCtx("exh-ctx-hot1x1", nil, []int{1}, n, 3, r)...)
+	if n > 1 {
+		out = append(out, genExhaustiveCtx("exh-ctx-cold1x1-hot1x1", []int{1}, []int{1}, 2, 4, r)...)
+	}
+	nback := 18
+	nrand := 3400
 	if tier == "thorough" {
+		nback = 300
 		nrand = 80000
 		out = append(out, genExhaustive("exh-cold1x2-hot1x1", []int{2}, []int{1}, n, false, r)...)
 		out = append(out, genExhaustive("exh-cold1x1-hot2x1", []int{1}, []int{1, 1}, n, false, r)...)
 		out = append(out, genExhaustive("exh-cold1x1-hot1x1-open", []int{1}, []int{1}, 2, true, r)...)
+	}
+	if tries == 3 { // the placement of the deadline relies on the 0 / 100 ms back-off of three tries
+		for i := 0; i < nback; i++ {
+			out = append(out, genBackoff(r))
+		}
 	}
 	for i := 0; i < nrand; i++ {
 		out = append(out, genRandom(r, tries))
@@ -268,6 +347,12 @@ type runCtx struct {
 	nvisit  map[string]int // "tier/shard" -> visits so far
 	ncall   map[string]int // "tier/shard/rep" -> calls so far
 	viol    []string
+	// request context
+	cancel      func()
+	dead        bool // logical: every later call returns the context error
+	pendingDead bool // a hanging call of the visit in progress let the context expire
+	total       int  // completed visits
+	cancelAt    *int
 }
 
 type pcall struct {
@@ -299,9 +384,33 @@ func (f *fake) Bulk(ctx context.Context, in *storeapi.BulkRequest, _ ...grpc.Cal
 	if in == nil || in.Count != rc.count || !bytes.Equal(in.Docs, rc.docs) || !bytes.Equal(in.Metas, rc.metas) {
 		pay = 1
 	}
-	rc.pending = append(rc.pending, pcall{f.tier, f.shard, call{f.rep, o, pay}})
+	if rc.dead {
+		o = oCtx
+	}
+	logged := o
+	switch o {
+	case oHang:
+		logged, rc.pendingDead = oTimeout, true
+	case oHangOk:
+		logged, rc.pendingDead = oSlowOk, true
+	}
+	rc.pending = append(rc.pending, pcall{f.tier, f.shard, call{f.rep, logged, pay}})
 	rc.mu.Unlock()
 	switch o {
+	case oCtx:
+		if err := ctx.Err(); err != nil {
+			return nil, err
+		}
+		return nil, context.Canceled
+	case oHang, oHangOk:
+		// the replica does not answer; the caller's deadline passes
+		time.Sleep(2 * time.Millisecond)
+		rc.cancel()
+		<-ctx.Done()
+		if o == oHangOk {
+			return &emptypb.Empty{}, nil
+		}
+		return nil, ctx.Err()
 	case oOk:
 		return &emptypb.Empty{}, nil
 	case oErr:
@@ -362,7 +471,18 @@ func (m *collector) done(short bool) {
 	k := rc.nvisit[key]
 	flags := rc.tierOf(m.tier)[m.shard].Open
 	open := k < len(flags) && flags[k]
+	rc.total++
+	doCancel := false
+	if !rc.dead && (rc.pendingDead || (rc.sc.Ctx != nil && rc.sc.Ctx.AfterVisits == rc.total)) {
+		rc.dead = true
+		n := rc.total
+		rc.cancelAt = &n
+		doCancel = rc.pendingDead || rc.sc.Ctx.Mode != "deadline"
+	}
 	rc.mu.Unlock()
+	if doCancel {
+		rc.cancel()
+	}
 	if open {
 		m.c.OpenCircuit()
 	} else {
@@ -454,7 +574,19 @@ func runScript(idx int, sc *script) result {
 		rand.Seed(sc.Shuffle)
 		docs := append([]byte(nil), rc.docs...)
 		metas := append([]byte(nil), rc.metas...)
-		err := client.StoreDocuments(context.Background(), int(rc.count), docs, metas)
+		var ctx context.Context
+		if sc.Ctx != nil && sc.Ctx.Mode == "deadline" {
+			ctx, rc.cancel = context.WithTimeout(context.Background(), 50*time.Millisecond)
+		} else {
+			ctx, rc.cancel = context.WithCancel(context.Background())
+		}
+		defer rc.cancel()
+		if sc.Ctx != nil && sc.Ctx.AfterVisits == 0 {
+			zero := 0
+			rc.dead, rc.cancelAt = true, &zero
+			rc.cancel()
+		}
+		err := client.StoreDocuments(ctx, int(rc.count), docs, metas)
 		res.Ok = err == nil
 	}()
 	select {
@@ -471,6 +603,7 @@ func runScript(idx int, sc *script) result {
 	}
 	res.Log = append([]visit{}, rc.visits...)
 	res.Viol = rc.viol
+	res.CancelAt = rc.cancelAt
 	return res
 }
 
@@ -565,8 +698,12 @@ func emit(w *casefile.Writer, sc *script, res *result) {
 	}
 	cord := ordersOf(res.Log, "cold", len(sc.Cold))
 	hord := ordersOf(res.Log, "hot", len(sc.Hot))
-	term := fmt.Sprintf("CBulk %d %s %s %s %s %s %s", res.Tries, tierCoq(sc.Cold), tierCoq(sc.Hot),
-		ordersCoq(cord), ordersCoq(hord), casefile.Bool(res.Ok), logCoq(res.Log))
+	cancel := "None"
+	if res.CancelAt != nil {
+		cancel = fmt.Sprintf("(Some %d)", *res.CancelAt)
+	}
+	term := fmt.Sprintf("CBulk %d %s %s %s %s %s %s %s", res.Tries, tierCoq(sc.Cold), tierCoq(sc.Hot),
+		ordersCoq(cord), ordersCoq(hord), cancel, casefile.Bool(res.Ok), logCoq(res.Log))
 	// classification by what was observed
 	failing, skipped, short, slow, timeout := 0, 0, 0, 0, 0
 	for _, v := range res.Log {
@@ -622,8 +759,27 @@ func emit(w *casefile.Writer, sc *script, res *result) {
 	if coldSkip {
 		w.Count("saw:cold-skipped-on-retry")
 	}
+	if res.CancelAt != nil {
+		// where in the run the request context expired
+		pos := "mid-run"
+		switch {
+		case *res.CancelAt == 0:
+			pos = "on-entry"
+		case *res.CancelAt == len(res.Log):
+			pos = "after-last-visit"
+		case len(sc.Cold) > 0 && len(cord) > 0 && *res.CancelAt <= len(cord)*len(sc.Cold) && *res.CancelAt < len(res.Log) && res.Log[*res.CancelAt].Tier == "hot":
+			pos = "cold-done-hot-pending"
+		}
+		w.Count("ctx-expired:" + pos)
+		if sc.Ctx != nil {
+			w.Count("ctx-mode:" + sc.Ctx.Mode)
+		} else {
+			w.Count("ctx-mode:hanging-call")
+		}
+		class += "+ctx-expired"
+	}
 	w.Count(fmt.Sprintf("invocations:cold=%d,hot=%d", len(cord), len(hord)))
-	w.Add(term, class, failing > 0, sc, map[string]any{"ok": res.Ok, "log": res.Log, "tries": res.Tries})
+	w.Add(term, class, failing > 0, sc, map[string]any{"ok": res.Ok, "log": res.Log, "tries": res.Tries, "cancel_at": res.CancelAt})
 }
 
 // ---------------------------------------------------------------- main
